@@ -120,16 +120,16 @@ def _swap_dedup(d) -> None:  # noqa: ANN001
     dd._deduplicator = d
 
 
-def engine_case(c: Campaign, spec: dict[str, Any], mode: str, trust: bool, picks: list[int]) -> None:
+def engine_case(c: Campaign, spec: dict[str, Any], mode: str, trust: bool, picks: list[int], cap: int = 2000) -> None:
     """Run ``spec`` with every ack withheld; after each delivery redeliver earlier messages according to ``mode``."""
     from stabilize.queue.dedup import BloomDeduplicator, get_deduplicator
 
     ref = reference_outcome(spec)
     tasks.reset_ledger()
-    run = Run(spec, Schedule(), trust_negative=trust)
+    run = Run(spec, Schedule(), trust_negative=trust, bloom_items=cap)
     w = run.w
     handled: list[dict[str, Any]] = []
-    case = {"kind": "engine", "spec": spec, "mode": mode, "trust_negative": trust, "picks": picks}
+    case = {"kind": "engine", "spec": spec, "mode": mode, "trust_negative": trust, "picks": picks, "cap": cap}
     redeliveries = 0
     checked = 0
     peer_dedup = None
@@ -149,10 +149,14 @@ def engine_case(c: Campaign, spec: dict[str, Any], mode: str, trust: bool, picks
         own = get_deduplicator()
         if mode == "rotate":
             own.reset()
+        elif mode == "rehydrate":
+            # what _handle_message does when the filter is due for rotation
+            own.reset()
+            w.processor._hydrate_deduplicator()
         elif mode == "restart":
             blob = w.snapshot()
             calls = list(w.handler_calls)
-            w2 = World(restore=blob, trust_negative=trust)
+            w2 = World(restore=blob, trust_negative=trust, bloom_items=cap)
             w2.handler_calls.extend(calls)
             run.w = w2
             w = w2
@@ -221,7 +225,9 @@ def engine_case(c: Campaign, spec: dict[str, Any], mode: str, trust: bool, picks
 
     for clause, detail in oracles.compare_outcome(spec, ref, got):
         c.violation(f"outcome-changed:{clause}|{mode}|trust={'on' if trust else 'off'}", case, detail)
-    c.case(("c09", spec, mode, trust, picks), checked > 0 and mode != "same", [f"mode:{mode}", f"trust:{'on' if trust else 'off'}"] + [f"feat:{f}" for f in features(spec)],
+    over = (w.scalar("SELECT COUNT(*) FROM processed_messages") or 0) > cap
+    c.case(("c09", spec, mode, trust, picks, cap), checked > 0 and mode != "same",
+           [f"mode:{mode}", f"trust:{'on' if trust else 'off'}", "processed-records-exceed-filter-capacity" if over else "filter-capacity-not-exceeded"] + [f"feat:{f}" for f in features(spec)],
            sample={"spec": spec["name"], "mode": mode, "trust_negative": trust, "redeliveries": redeliveries, "with_durable_record": checked}
            if checked > 3 else None)
     c.count("redeliveries-checked", checked)
@@ -235,13 +241,14 @@ def shard_engine(prop: str, tier: str, seed: int, n: int) -> dict[str, Any]:
     @hseed(seed)
     @settings(max_examples=n, database=None, deadline=None, derandomize=False, suppress_health_check=list(HealthCheck),
               phases=[Phase.generate], report_multiple_bugs=False)
-    @given(spec_st, st.sampled_from(["same", "rotate", "restart", "peer"]), st.booleans(), st.lists(st.integers(0, 40), min_size=1, max_size=12))
-    def t(spec, mode, trust, picks):
+    @given(spec_st, st.sampled_from(["same", "rotate", "rehydrate", "restart", "peer"]), st.booleans(), st.lists(st.integers(0, 40), min_size=1, max_size=12),
+           st.one_of(st.just(2000), st.integers(1, 40)))
+    def t(spec, mode, trust, picks, cap):
         if mode == "peer" and trust:
             # documented precondition of dedup_trust_negative_cache: this process is the ONLY writer of processed_messages
             c.count("excluded:peer-worker-with-negative-cache-on")
             return
-        engine_case(c, spec, mode, trust, picks)
+        engine_case(c, spec, mode, trust, picks, cap)
 
     t()
     return c.export()
@@ -251,11 +258,12 @@ def shard_grid(prop: str, tier: str, seed: int, name: str) -> dict[str, Any]:
     """Every handled message redelivered right after every later step, all four modes, both option values."""
     c = Campaign(prop, tier, seed, LEVEL)
     spec = core_corpus()[name]
-    for mode in ("same", "rotate", "restart", "peer"):
+    for mode in ("same", "rotate", "rehydrate", "restart", "peer"):
         for trust in (False, True):
             if mode == "peer" and trust:
                 continue
-            engine_case(c, spec, mode, trust, [4, 7, 1, 5, 8, 2])
+            for cap in (2000, 6):  # 6: fewer than the processed records of any corpus spec, so the filter must stay advisory
+                engine_case(c, spec, mode, trust, [4, 7, 1, 5, 8, 2], cap)
     return c.export()
 
 
